@@ -77,6 +77,16 @@ CLAIMS = {
          "the polynomials; for each of the eight types and both branches the parts are Faa di Bruno of the branch's tower; above the switch the real part equals the plain-float implementation's formula. The jets at 0 are "
          "in C10. Implementation run on [-50, 50], 0, below the switch, the switch value and its neighbours on both signs, small arguments, f32/f64 and plain floats. KNOWN FINDING (open, listed): the closed forms cancel "
          "catastrophically for eps <= |x| < 1; only that class is suppressed. Not proved: closeness of the series to the true functions for 0 < |x| < eps (eps^2, tested)."),
+ 'C17': ("Correspondence-centred: the Python module built from /repo is run against the Rust harness AND the translated model evaluated in Coq (bit for bit through the shortest-round-trip rendering); Coq proof on a hand model of the wrapper layer for the reflected operators and the name table",
+         "The binding layer is glue: its contract 'returns what the Rust operation returns' is a statement about two executables, so the deciding part is the correspondence. The extension module is built from /repo's working tree "
+         "(feature python, cdylib) on every run and driven by tools/pyrun.py: all eight registered classes x every named method, sin_cos, powi/powf/powd/log_base/mul_add, + - * / with dual / float / int right operands, float / int left "
+         "operands (reflected operators), ** with int / float / dual, unary minus, constructors, from_re, getters, repr; the ten driver functions on closures written with Python operators (gradient / hessian with 1..12 variables: the "
+         "fixed-size classes up to 10 and the dynamic class beyond; jacobian 1..10; partial_hessian; third_partial_derivative_vec). Expected = the corresponding Rust operation through the harness, rendered by Display; Python repr must be that "
+         "string (Rust's float Display is the shortest round-trip decimal: equal strings, equal bits; -0 is read as 0 as everywhere in this framework), getters the stored parts, drivers the Rust driver's floats on the same closure. The same "
+         "expected chains are evaluated on the translated model inside Coq and must agree bit for bit, so Python = Rust = model. Theorems (Props/C17.v, 7) on the hand model Hand/PyWrap.v: for Dual, Dual2, Dual3, HyperDual, HyperHyperDual over "
+         "R, f + d, f - d, f * d, f / d as the macro composes them (d + f, (-d) + f, d * f, recip(d) * f) equal the operation with f lifted to a constant on the left, in every part (re d <> 0 for /); for an arbitrary number type the "
+         "renamed methods (expm1, log, log1p, arcsin..) are the Rust operations exp_m1, ln, ln_1p, asin.. and ** dispatches to powi / powf / powd. NOT covered: numpy array right operands (broadcasting), pickling; jacobian beyond 10 "
+         "variables raises by design. Trusted: pyo3 argument conversion, numpy."),
  'C18': ("Coq proof: token lists generated from the source's format strings render, for any number format, as the documented layout; shown numbers = stored parts in order (injectivity); Derivative::fmt hand-modelled; bit-exact correspondence of the printed numbers",
          "Theorems (Props/C18.v, 18): for an arbitrary way of showing the inner number (hence nested types) and any number/matrix formatting, the token list the translator generates from each scalar type's format "
          "string renders as: real part, then for each part in declaration order ' + ', its rendering, its documented symbol; vector types are real part followed by Derivative::fmt of each optional part with its symbol; "
